@@ -99,3 +99,11 @@ pub assume_specification<T: Clone>[<[T]>::fill](s: &mut [T], value: T)
 // io::Error::kind (Rust reference)
 pub assume_specification[std::io::Error::kind](e: &std::io::Error) -> (r: std::io::ErrorKind)
     ensures r == io_kind(*e);
+
+/// big-endian bytes of a u32
+pub open spec fn be32(x: u32) -> Seq<u8> { seq![(x >> 24) as u8, ((x >> 16) & 0xff) as u8, ((x >> 8) & 0xff) as u8, (x & 0xff) as u8] }
+// u32::to_be_bytes (Rust reference)  [rewrite R11]
+#[verifier::external_body]
+pub fn vu32_to_be_bytes(x: u32) -> (r: [u8; 4])
+    ensures r@ == be32(x),
+{ x.to_be_bytes() }
